@@ -12,7 +12,7 @@ from ..models.doctable import DocTable, PTYPES, WTYPES
 from .base import Scenario, solo_events, callers_of
 from ..runner import lentil_root
 
-MUL = {'Plane.multiply': (0, 1), 'w*p': (1, 0), 'p*w': (0, 1)}   # fn -> (plane arg index, wavefront arg index)
+MUL = {'Plane.multiply': (0, 1), 'w*p': (1, 0), 'p*w': (0, 1), 'w*=p': (1, 0)}   # fn -> (plane arg index, wavefront arg index)
 PROP = ('propagate_dft', 'propagate_fft')
 
 
@@ -176,6 +176,7 @@ class PtypeScenario(Scenario):
         add('Image', 'IMG', k={})
         add('Image', 'IMGA', k={'amplitude': '@a1'})
         add('Plane', 'PLN', k={'amplitude': '@a0', 'pixelscale': ph['dx']})
+        add('Plane', 'GPA', k={'amplitude': '@a0', 'pixelscale': ph['dx'], 'ptype': 'pupil'})
         add('Tilt', 'TLT', k={'x': 2e-6 / ph['f'], 'y': -3e-6 / ph['f']})
         add('Tilt', 'TLTP', k={'x': 1e-6 / ph['f'], 'y': 1e-6 / ph['f'], 'ptype': 'pupil'})
         add('DispersiveTilt', 'DSPI', k={'trace': [0.5, 0.0], 'dispersion': [1e-3, ph['wl'] - 2e-8], 'ptype': 'image'})
@@ -203,6 +204,7 @@ class PtypeScenario(Scenario):
         P['IMG'] = {'pt': cls['Image'], 'px': None, 'arr': False, 'shape': (), 'fl': None, 'tilt': False}
         P['IMGA'] = {'pt': cls['Image'], 'px': None, 'arr': True, 'shape': S1, 'fl': None, 'tilt': False}
         P['PLN'] = {'pt': 'none', 'px': dx, 'arr': True, 'shape': S0, 'fl': None, 'tilt': False}
+        P['GPA'] = {'pt': 'pupil', 'px': dx, 'arr': True, 'shape': S0, 'fl': None, 'tilt': False}
         P['TLT'] = {'pt': cls['Tilt'], 'px': None, 'arr': False, 'shape': (), 'fl': None, 'tilt': True}
         P['TLTP'] = {'pt': 'pupil', 'px': None, 'arr': False, 'shape': (), 'fl': None, 'tilt': True}
         P['DSPI'] = {'pt': 'image', 'px': None, 'arr': False, 'shape': (), 'fl': None, 'tilt': True}
@@ -233,7 +235,7 @@ class PtypeScenario(Scenario):
         return w['px'] is None or p['px'] is None or tuple(w['px']) == tuple(p['px'])
 
     def mul_event(self, rng, c, w, pid, new_id, tag=None):
-        form = rng.choice(['Plane.multiply', 'w*p', 'p*w'])
+        form = rng.choice(['Plane.multiply', 'w*p', 'p*w', 'w*=p'])
         a = ['@' + pid, '@' + w['id']] if MUL[form] == (0, 1) else ['@' + w['id'], '@' + pid]
         e = {'c': c, 'fn': form, 'a': a, 'id': new_id}
         if tag:
@@ -246,6 +248,14 @@ class PtypeScenario(Scenario):
         inf = float('inf')
         can = w['arr'] and w['px'] is not None and w['fl'] != inf and w['t'] in ('pupil', 'image')
         method = method or rng.choice(['propagate_dft', 'propagate_dft', 'propagate_fft'])
+        if w['arr'] and w['px'] is not None and w['fl'] == inf and w['t'] == 'pupil' and method == 'propagate_dft' and not w['tilt']:
+            # no focal length was ever handed over (plane wave): the DFT propagator still accepts a pupil wavefront
+            os_ = rng.choice([1, 2])
+            n = rng.randint(2, 8)
+            tag = dict(tag or {}, propagatable=True, infinite_focal_length=True)
+            res = {'id': new_id, 't': 'image', 'px': (ph['du'] / os_, ph['du'] / os_), 'fl': inf, 'arr': True, 'tilt': False, 'shape': (n * os_, n * os_)}
+            return {'c': c, 'fn': method, 'a': ['@' + w['id']], 'k': {'pixelscale': ph['du'], 'shape': [n, n], 'oversample': os_},
+                    'id': new_id, 't': tag}, res
         tag = dict(tag or {})
         res = None
         if w['t'] == 'pupil' or not can:
@@ -390,8 +400,8 @@ class PtypeScenario(Scenario):
         for w in self.wf_models():
             for pid in sorted(P):
                 n += 1
-                events.append({'c': 0, 'fn': ['Plane.multiply', 'w*p', 'p*w'][n % 3],
-                               'a': (['@' + w['id'], '@' + pid] if n % 3 == 1 else ['@' + pid, '@' + w['id']]),
+                events.append({'c': 0, 'fn': ['Plane.multiply', 'w*p', 'p*w', 'w*=p'][n % 4],
+                               'a': (['@' + w['id'], '@' + pid] if n % 4 in (1, 3) else ['@' + pid, '@' + w['id']]),
                                'id': 'r%d' % n})
         # propagation from each type, refusal right after a transition
         wn = self.wf_models()[0]
@@ -413,6 +423,12 @@ class PtypeScenario(Scenario):
         for meth in PROP:
             ev, _ = self.prop_event(rng, world, 0, wn, 'np_' + meth, method=meth)
             events.append(ev)
+        events.append({'c': 0, 'fn': 'w*=p', 'a': ['@w_none', '@GPA'], 'id': 'gp'})
+        mg = self.mul_model(wn, 'GPA', P['GPA'], 'gp')
+        ev, _ = self.prop_event(rng, world, 0, mg, 'gp_im', method='propagate_dft')
+        events.append(ev)
+        events.append({'c': 0, 'fn': 'w*=p', 'a': ['@pu', '@TLT'], 'id': 'pu_imul_t'})
+        events.append({'c': 0, 'fn': 'w*=p', 'a': ['@pu', '@g_transform'], 'id': 'pu_imul_x'})
         events.append({'c': 0, 'fn': 'deepcopy', 'a': ['@pu'], 'id': 'pu_copy', 't': {'copy': True}})
         for meth in PROP:
             ev, res = self.prop_event(rng, world, 0, dict(m, id='pu_copy'), 'cim_' + meth, method=meth)
